@@ -242,4 +242,7 @@ def run_case(case):
                                        or any(pspec.nondefault_axis(g) for g in graphs))
     if degenerate:
         classes.append("degenerate-reference")
-    return {"nontrivial": nontrivial, "classes": classes}
+    # open finding F19: complex graphs are generated with complex leaves only (mixed real / complex fold sets
+    # are excluded by construction); count how many cases that redirection affected
+    excluded = int(any(l.get("cx") for g in graphs for l in _leaves(g, [])) and len(graphs) > 1)
+    return {"nontrivial": nontrivial, "classes": classes, "excluded": excluded}
